@@ -148,3 +148,50 @@ func H_C08_snippet_then_file() {
 		verifAssert(a[:len(a)-2] != q0, "and no other path takes that name")
 	}
 }
+
+// a File that is rendered, extended and rendered again gives exactly what an identically built
+// File gives when rendered once
+func H_C08_file_growth() {
+	impSummaries()
+	canonicalMapOrder()
+	p0, p1, p2 := leadPath(0), leadPath(1), leadPath(2)
+	build := func(upto int) *File {
+		f := NewFile("p")
+		f.NoFormat = true
+		f.Add(Qual(p0, "A"))
+		f.Add(Qual(p1, "B"))
+		if upto >= 1 {
+			switch nondetChoice("extension", 4) {
+			case 0:
+				f.Add(Qual("C", "x"))
+			case 1:
+				f.Add(Qual(p2, "D"))
+			case 2:
+				f.Anon(p2)
+			case 3:
+				f.Add(Qual(p0, "E"))
+			}
+		}
+		return f
+	}
+	f := build(0)
+	first, pan := c08fileRaw(f)
+	verifAssert(!pan, "no panic")
+	_ = first
+	// extend the same File exactly as build(1) does
+	switch nondetChoice("extension", 4) {
+	case 0:
+		f.Add(Qual("C", "x"))
+	case 1:
+		f.Add(Qual(p2, "D"))
+	case 2:
+		f.Anon(p2)
+	case 3:
+		f.Add(Qual(p0, "E"))
+	}
+	second, pan2 := c08fileRaw(f)
+	fresh, pan3 := c08fileRaw(build(1))
+	verifAssert(!pan2 && !pan3, "no panic")
+	verifObserve("second", second)
+	verifAssert(second == fresh, "an earlier render does not change what the extended File renders")
+}
